@@ -1559,6 +1559,7 @@ DIRECTED = [
     ("B1", "glpk_exact", [["rm_rxn", ["R0"], False, "obj"], ["solver", "glpk"]]),
     ("B1", "glpk", [["rm_rxn", ["R0"], False, "obj"], ["solver", "glpk_exact"]]),
     ("B1", "glpk", [["rm_rxn", ["R1"], True, "id"], ["enter"], ["obj_coef", "R2", 2], ["exit"]]),
+    ("B1", "glpk_exact", [["rm_rxn", ["R0"], False, "obj"], ["readd", "R0"], ["solver", "glpk"]]),
     ("B1", "glpk", [["rm_met", ["b_c"], True], ["merge", "rb", "p_", True, "left"]]),
     # merge: rows of the right model copied as if they were custom constraints; discarded reaction copies stay referenced
     ("B0", "glpk", [["rename_met", "b_c", "bx_c"], ["merge", "rb", None, True, "left"]]),
